@@ -231,7 +231,7 @@ var outputParam = regexp.MustCompile(`^(dst|out|output|buf|b|ct|ss|sig|signature
 // checkC11Operands: protocol-level API operations do not write their non-receiver operands.
 func checkC11Operands(c *Ctx, p *Program) {
 	mod := p.Mod()
-	pkgs := []string{"oprf", "zk/dleq", "zk/dl", "zk/qndleq", "secretsharing", "math/polynomial", "tss/rsa", "hpke", "sign/bls", "blindsign/blindrsa", "blindsign/blindrsa/partiallyblindrsa", "abe/cpabe/tkn20", "ot/simot", "kem/hybrid", "kem/xwing", "dh/csidh", "dh/curve4q", "dh/x25519", "dh/x448", "ecc/fourq", "ecc/bls12381"}
+	pkgs := []string{"oprf", "zk/dleq", "zk/dl", "zk/qndleq", "secretsharing", "math/polynomial", "tss/rsa", "hpke", "sign/bls", "blindsign/blindrsa", "blindsign/blindrsa/partiallyblindrsa", "abe/cpabe/tkn20", "ot/simot", "kem/hybrid", "kem/xwing", "dh/csidh", "dh/curve4q", "dh/x25519", "dh/x448", "ecc/fourq", "ecc/bls12381", "group", "vdaf/prio3/internal/prio3"}
 	// declared outputs, by (function, parameter name)
 	declared := map[string]bool{
 		"dh/csidh.GeneratePublicKey#pub":  true, // documented: pub receives the generated key
@@ -244,6 +244,7 @@ func checkC11Operands(c *Ctx, p *Program) {
 		"dh/x25519.KeyGen#public":         true,
 		"dh/x448.Shared#shared":           true,
 		"dh/x448.KeyGen#public":           true,
+		"group.HashToField#u":             true, // documented: the elements u1..uN are written to u
 	}
 	n := 0
 	for _, pkg := range pkgs {
